@@ -40,3 +40,6 @@ THEOREMS["C10"] = THEOREMS["C10"] + ["Codec.C04_store_per_statement", "Obligatio
                                        # and the one concrete sink with a buffer across statements (JSON sink): reset before the throwing customisation point
                                        "Named.C19_json_faults_leave_nothing", "Obligations.json_sink_clear_before_generate", "Obligations.C10_json_sink_faults_extracted"]
 OBLIG = ["QuillModel.Obligations.BackendA"]
+# per property (a broken fact of C08 is not C03's broken tie)
+OBLIG_BY_PROP = {"C03": ["QuillModel.Obligations.BackendA_C03", "QuillModel.Obligations.BackendA_Common"], "C10": ["QuillModel.Obligations.BackendA_C10", "QuillModel.Obligations.BackendA_Common"],
+                 "C08": ["QuillModel.Obligations.BackendA_C08", "QuillModel.Obligations.BackendA_Common"]}
